@@ -54,9 +54,10 @@ type ClosureV struct {
 type TupleV []Val
 
 type deferred struct {
-	call *ssa.CallCommon
-	args []Val
-	fnv  Val
+	call  *ssa.CallCommon
+	args  []Val
+	fnv   Val
+	guard *Term // nil: unconditional; otherwise the call runs only where guard holds (defer on one branch only)
 }
 
 type State struct {
@@ -594,12 +595,44 @@ func (ex *Exec) merge(states []*State) (*State, error) {
 		if s.heapTop != res.heapTop {
 			res.heapTop = ex.p.Ite(c, s.heapTop, res.heapTop)
 		}
-		if len(s.defers) != len(res.defers) {
-			return nil, fmt.Errorf("merge of states with different defer stacks")
+		if !sameDefers(s.defers, res.defers) {
+			// a defer executed on one branch only: keep the common prefix, guard the rest by the branch it came from
+			n := 0
+			for n < len(s.defers) && n < len(res.defers) && s.defers[n].call == res.defers[n].call && s.defers[n].guard == res.defers[n].guard {
+				n++
+			}
+			merged := append([]deferred(nil), res.defers[:n]...)
+			for _, d := range res.defers[n:] {
+				g := res.pc
+				if d.guard != nil {
+					g = ex.p.And(g, d.guard)
+				}
+				merged = append(merged, deferred{d.call, d.args, d.fnv, g})
+			}
+			for _, d := range s.defers[n:] {
+				g := s.pc
+				if d.guard != nil {
+					g = ex.p.And(g, d.guard)
+				}
+				merged = append(merged, deferred{d.call, d.args, d.fnv, g})
+			}
+			res.defers = merged
 		}
 		res.pc = ex.p.Or(res.pc, s.pc)
 	}
 	return res, nil
+}
+
+func sameDefers(a, b []deferred) bool {
+	if len(a) != len(b) {
+		return false
+	}
+	for i := range a {
+		if a[i].call != b[i].call || a[i].guard != b[i].guard {
+			return false
+		}
+	}
+	return true
 }
 
 func sortedKeys(m map[string]*Term) []string {
